@@ -34,7 +34,7 @@ ASSUMPTIONS = [
 PROBES = ["rules_total", "cat_accessible", "cat_tuned", "cat_failed", "all_three_in_one_run", "tuned_via_variable", "tuned_literal",
           "nested_depth_3", "nested_rule_tuned", "premium_runs", "default_bg_runs", "shared_var_sheet", "root_direct_color",
           "fallback_used", "important_present", "prop_case_present", "alpha_text_tuned", "api_calls", "dir_invocation",
-          "mode0", "mode1", "mode2", "report_present", "subprocess_crosscheck", "multi_file_runs"]
+          "mode0", "mode1", "mode2", "report_present", "subprocess_crosscheck", "multi_file_runs", "inplace_model_evaluated", "inplace_model_matched"]
 
 C08_FEATURES = tuple(f for f in gen.ALL_FEATURES if f not in gen.C09_ONLY)
 
@@ -129,6 +129,131 @@ def rule_features(ri, infos, defs, props):
     f["n_color_decls"] = len(cds)
     f["nested"] = ri.depth > 0
     return f
+
+
+# ---------------------------------------------------------------------------
+# executable model of the tool's AS-IS handling of custom properties (sequential, in place).
+# It is NOT an oracle for the property: it is the precise description of known finding F5. A violation
+# on a rule that shares a custom property is attributed to F5 only if the whole run behaves exactly as
+# this model predicts; any other behaviour on such rules is reported as an unknown violation.
+
+import re as _re
+
+_TOOL_VAR_RE = _re.compile(r"var\((--[\w-]+)(?:\s*,\s*(.*))?\)")
+_TOOL_NAME_RE = _re.compile(r"var\(\s*(--[\w-]+)\s*(?:,.*)?\)", _re.DOTALL)
+
+
+def _tool_resolve(value, table, visited=None):
+    if visited is None:
+        visited = set()
+    if not value or "var(" not in value:
+        return value
+    m = _TOOL_VAR_RE.search(value)
+    if not m:
+        return value
+    name, fb = m.group(1), m.group(2)
+    if name in visited:
+        return fb
+    visited.add(name)
+    if name in table:
+        r = _tool_resolve(table[name]["value"], table, visited)
+        if r:
+            return r
+    if fb:
+        return _tool_resolve(fb, table, visited)
+    return None
+
+
+def _classify(text_str, bg_str, mode, premium):
+    """In a pristine fork: how the library classifies one pair (the CLI's three-way decision)."""
+    from cm_colors import ColorPair
+    from cm_colors.core.contrast import calculate_contrast_ratio
+
+    try:
+        p = ColorPair(text_str, bg_str)
+        if not p.is_valid:
+            return ("failed",)
+        if calculate_contrast_ratio(p.text.rgb, p.bg.rgb) >= (7.0 if premium else 4.5):
+            return ("accessible",)
+        kw = {"very_readable": bool(premium)}
+        if mode is not None:
+            kw["mode"] = mode
+        col, ok = p.make_readable(**kw)
+        return ("tuned", col) if ok else ("failed",)
+    except Exception:
+        return ("failed",)
+
+
+def inplace_model(sheets, settings, cache):
+    """-> {"cards": {(file, sel): (before, bg, after)}, "failed": set, "rule_values": {(file, sel): str}, "var_values": {(file, name): str}}"""
+    dbg = settings.get("default_bg") or "white"
+    pred = {"cards": {}, "failed": set(), "rule_values": {}, "var_values": {}}
+    for fname, text in sheets:
+        bname = fname.rsplit("/", 1)[-1]
+        nodes = tinycss2.parse_stylesheet(text, skip_whitespace=True, skip_comments=True)
+        table = {}
+        for rule in nodes:
+            if isinstance(rule, tinycss2.ast.QualifiedRule):
+                sel = refs._ser(rule.prelude)
+                if sel in (":root", "html"):
+                    for d in refs._decls(rule.content):
+                        if d.name.startswith("--"):
+                            rank = (bool(d.important), sel == ":root")
+                            prev = table.get(d.name)
+                            if prev and prev["rank"] > rank:
+                                continue
+                            table[d.name] = {"value": refs._ser(d.value), "rank": rank}
+        infos, _props = refs.analyse(text, dbg)
+        for ri in infos:
+            if not ri.color_decls:
+                continue
+            raw_text = ri.color_value
+            raw_bg = ri.bg_value if ri.bg_value is not None else dbg
+            text_str = _tool_resolve(raw_text, table) or raw_text
+            bg_str = _tool_resolve(raw_bg, table) or raw_bg
+            key = (text_str, bg_str)
+            if key not in cache:
+                cache[key] = base.in_fork(_classify, text_str, bg_str, settings.get("mode"), bool(settings.get("premium")), timeout=120)
+            cls = cache[key]
+            k = (bname, ri.selector)
+            pred["rule_values"][k] = raw_text
+            if cls[0] == "failed":
+                pred["failed"].add(k)
+            elif cls[0] == "tuned":
+                tuned = cls[1]
+                pred["cards"][k] = (text_str, bg_str, tuned)
+                m = _TOOL_NAME_RE.search(raw_text) if "var(" in raw_text else None
+                if m and m.group(1) in table:
+                    table[m.group(1)]["value"] = tuned
+                else:
+                    pred["rule_values"][k] = tuned
+        for n, v in table.items():
+            pred["var_values"][(bname, n)] = v["value"]
+    return pred
+
+
+def inplace_model_matches(sheets, settings, cards, fail_keys, out_texts, cache):
+    """True iff the run's report, failure list and written files are exactly what the in-place model predicts."""
+    dbg = settings.get("default_bg") or "white"
+    try:
+        pred = inplace_model(sheets, settings, cache)
+    except base.HarnessError:
+        return False
+    got_cards = {(c["file"], c["selector"]): (c["before"], c["bg"], c["after"]) for c in cards}
+    if got_cards != pred["cards"] or set(fail_keys) != pred["failed"]:
+        return False
+    for fname, _t in sheets:
+        bname = fname.rsplit("/", 1)[-1]
+        oinfos, oprops = refs.analyse(out_texts[fname], dbg)
+        for ri in oinfos:
+            if ri.color_decls:
+                want = pred["rule_values"].get((bname, ri.selector))
+                if want is None or refs._ser(tinycss2.parse_component_value_list(want)) != ri.color_value:
+                    return False
+        for (b, n), v in pred["var_values"].items():
+            if b == bname and oprops.get(n) != refs._ser(tinycss2.parse_component_value_list(v)):
+                return False
+    return True
 
 
 def _best_ratio(text, bg, alpha_text):
@@ -366,6 +491,17 @@ def execute(trace):
         if trace.get("subproc") and not multi:
             bump("subprocess_crosscheck")
             _subprocess_crosscheck(root, name, text, target, settings, env, res, out_ent, rep_ent)
+
+        # attribution of violations on shared-custom-property rules to known finding F5: only when the whole run
+        # behaves exactly like the sequential in-place model (computed lazily, only if such a violation exists)
+        if any(v["features"].get("shared_var") for v in vio):
+            ok = inplace_model_matches(sheets, settings, cards, fail_sels, {n: out_ents[n][1].decode("utf-8") for n, _ in sheets}, {})
+            bump("inplace_model_evaluated")
+            if ok:
+                bump("inplace_model_matched")
+            for v in vio:
+                if v["features"].get("shared_var"):
+                    v["features"]["inplace_model_ok"] = ok
 
         # 7. report presence
         if T_ > 0 and (rep_ent is None or summ["report"] is None):
